@@ -212,6 +212,14 @@ def run(rep: Report, prog: Program, tier: str) -> None:
             srs = show(sr)
             if "last_stop_reason" not in srs and ".stop_reason" not in srs:
                 problems.append(f"stop_reason={srs}")
+            # the direct construction carries no next_sleep_s: it may only be reached when the loop action is known
+            # not to be a ScheduledAction (whose fields - next_sleep_s of a deferral among them - raise_scheduled delivers)
+            acts = [e for e in p.calls(pure=None) if e.is_repo(":determine_action_from_outcome")]
+            if acts and d.get("next_sleep_s", ("const", None)) == ("const", None):
+                a_res = acts[-1].result
+                excluded = any(a[0] == "pure" and a[1] == "isinstance" and len(a[2]) == 2 and a[2][0] == a_res and "ScheduledAction" in show(a[2][1]) and not pol for a, pol, _ in p.conds)
+                if not excluded:
+                    problems.append("built directly (no next_sleep_s) on a path where the loop action may be a ScheduledAction: a deferral's next_sleep_s / stop reason would be dropped (expected `if isinstance(action, ScheduledAction): raise_scheduled(action)` first)")
             if problems:
                 rep.fail("R4.3", f"{name}|ctor|{problems[0][:40]}", f"{q}: RetryExhaustedError built with {problems}", where=prog.func(q).where(), function=q, path=p.describe())
             else:
@@ -331,6 +339,12 @@ def run(rep: Report, prog: Program, tier: str) -> None:
             rep.ok("R4.5")
     if n_mod < 100:
         raise AnalysisError(f"R4.5: only {n_mod} functions scanned")
+
+    rep.rule("R4.7", "last_class / last_classification describe the final attempt: every failure is classified on its own (= C01 R1.6; no verdict cached per type / message, none carried over)")
+    from .common import failure_entry
+
+    failure_entry(rep, "R4.7", prog)
+    rep.floor("R4.7", 2)
 
     rep.rule("R4.6", "`classified as success` = no result classifier, or the classifier answered None for this very result (= C03 R3.9): the value call() returns is the first one with that verdict")
     from .c03 import result_verdict
